@@ -8,10 +8,10 @@ import TracklibVerif.Drv.Util
   add <7 fields> <nbsec>             → y m d H M S ms
   civil <y> <m> <d>                  → day number (spec)
  float path (`readUnixG`, `toAbsG`, … instantiated at IEEE doubles; floats cross as bit patterns, fields are integers):
-  readf <x>                          → y m d H M S ms | err:nonterm   (readUnixTime(x))
+  readf <x>                          → y m d H M S ms <bits of its toAbsTime()> | err:nonterm   (readUnixTime(x))
   absf <7 fields>                    → bits of toAbsTime()
-  rtf <7 fields>                     → bits of toAbsTime(), then the fields of readUnixTime(toAbsTime())
-  addf <7 fields> <sec|min|hour|day> <nb>  → fields of addSec/addMin/addHour/addDay(nb), nb a double
+  rtf <7 fields>                     → bits of toAbsTime(), then the reply of readf on it
+  addf <7 fields> <sec|min|hour|day> <nb>  → addSec/addMin/addHour/addDay(nb), nb a double; reply as readf
   cmpf <x> <y>                       → lt gt eq le ge ne of readUnixTime(x), readUnixTime(y), then bits of their `-`
   subf <7 fields a> <7 fields b>     → bits of a - b
   default                            → fields of ObsTime() -/
@@ -33,9 +33,10 @@ def floatTrunc (f : Float) : Int := f.toInt64.toInt
 def showStampZ (t : StampZ) : String :=
   s!"{t.year} {t.month} {t.day} {t.hour} {t.min} {t.sec} {t.ms}"
 
+/-- the fields of a result and the bit pattern of its `toAbsTime()` -/
 def showOptZ : Option StampZ → String
   | none => "err:nonterm"
-  | some t => showStampZ t
+  | some t => showStampZ t ++ " " ++ showFloat (toAbsG t : Float)
 
 def stampZ? (l : List String) : Option (StampZ × List String) :=
   match l with
